@@ -112,7 +112,7 @@ struct Emitter {
   std::string E(const Expr *e) {
     if (!e) return "null";
     // constant folding first (but keep address-of / string etc. out)
-    if (!e->isValueDependent() && e->getType()->isIntegralOrEnumerationType() && !isa<InitListExpr>(e)) {
+    if (!e->isValueDependent() && e->isPRValue() && e->getType()->isIntegralOrEnumerationType() && !isa<InitListExpr>(e)) {
       Expr::EvalResult R;
       if (e->EvaluateAsInt(R, Ctx, Expr::SE_NoSideEffects)) {
         llvm::APSInt v = R.Val.getInt();
